@@ -16,6 +16,45 @@ from .engine import FIELDS, CLASS_IDS
 
 TK = z3.Function("to_key", INT, KS)
 TV = z3.Function("to_value", INT, INT)
+KARR = z3.ArraySort(INT, KS)
+KSET = z3.ArraySort(KS, BOOL)
+PE = z3.Function("prefix_elems", KARR, INT, KSET)     # axioms: pyvc.spec.pe_axioms()
+KSEQ = z3.Function("keyseq", INT, INT)
+VSEQ = z3.Function("valseq", INT, INT)
+ISBT = z3.Function("is_btrees_container", INT, BOOL)
+HASV = z3.Function("has_values", INT, BOOL)
+
+
+def pe_axioms(full=False):
+    """Definition of prefix_elems.  The unfolding at an arbitrary n (third
+    axiom) can be instantiated without end, so it is only handed to the proof
+    of the one function that needs it (_SetIteration.advance); callers reason
+    with that function's contract and treat prefix_elems as opaque."""
+    c = z3.Const("c!pe", KARR)
+    n = z3.Int("n!pe")
+    ax = [z3.ForAll([c], PE(c, 0) == z3.K(KS, z3.BoolVal(False)), patterns=[PE(c, 0)]),
+          z3.ForAll([c, n], z3.Implies(n >= 0, PE(c, n + 1) == z3.Store(PE(c, n), z3.Select(c, n), True)),
+                    patterns=[PE(c, n + 1)])]
+    if full:
+        ax.append(z3.ForAll([c, n], z3.Implies(n >= 1, PE(c, n) == z3.Store(PE(c, n - 1), z3.Select(c, n - 1), True)),
+                            patterns=[PE(c, n)]))
+    return ax
+
+
+def pe_remaining_lemma():
+    """L2 (proved by induction as obligations lemma:pe_remaining:*): in a
+    strictly ascending sequence c[0:n], a key of the whole sequence that is
+    not among the first p keys is >= c[p]."""
+    c = z3.Const("c!l2", KARR)
+    n, p = z3.Int("n!l2"), z3.Int("p!l2")
+    k = z3.Real("k!l2")
+    i, j = z3.Int("i!l2"), z3.Int("j!l2")
+    srt = z3.ForAll([i, j], z3.Implies(z3.And(0 <= i, i < j, j < n), z3.Select(c, i) < z3.Select(c, j)))
+    return z3.ForAll([c, n, p, k], z3.Implies(
+        z3.And(0 <= p, p < n, srt, z3.Select(PE(c, n), k), z3.Not(z3.Select(PE(c, p), k))),
+        z3.Select(c, p) <= k), patterns=[z3.MultiPattern(z3.Select(PE(c, n), k), z3.Select(PE(c, p), k))])
+
+
 REPK = z3.Function("representable_key", INT, BOOL)
 REPV = z3.Function("representable_value", INT, BOOL)
 
@@ -36,6 +75,7 @@ class Contract:
         self.loops = list(loops)
         self.inline = inline
         self.trusted = trusted          # no body verified (assumed contract)
+        self.lemma = None               # callable -> [(name, [hyps], goal)]: a lemma proved by the solver
         self.props = list(props)        # property ids this contract serves
         self.ghost = ghost or {}
 
@@ -60,19 +100,18 @@ class SpecCtx:
 class SpecMixin:
 
     def mk_value(self, st, kspec, name="v"):
-        """A fresh symbolic value of the given kind spec."""
-        kind, extra = parse_kind(kspec) if not isinstance(kspec, tuple) or \
-            kspec[0] != "tuple" or isinstance(kspec[1], list) and \
-            kspec[1] and isinstance(kspec[1][0], str) else kspec
-        if kind == "tuple":
-            items = extra if extra and isinstance(extra[0], tuple) else \
-                [parse_kind(e) for e in extra]
-            return SV("tuple", None,
-                      [self.mk_value(st, _unparse(k), name) for k in items])
+        """A fresh symbolic value of the given kind spec:
+        'int' | 'ref:Bucket' | ... | ('tuple', [spec, ...]) (nested)."""
+        if isinstance(kspec, tuple):
+            assert kspec[0] == "tuple"
+            return SV("tuple", None, [self.mk_value(st, k, name) for k in kspec[1]])
+        kind, extra = parse_kind(kspec)
         if kind == "none":
             return NONE
         if kind == "marker":
             return MARKER
+        if kind == "cls":
+            return SV("cls", None, extra)
         z = fresh(name, KIND_SORT[kind])
         if kind == "ref":
             st.assume(z >= 0)
@@ -142,8 +181,18 @@ class SpecMixin:
             if isinstance(n.op, ast.USub):
                 return SV(v.kind, -v.z)
         if t is ast.BoolOp:
-            vs = [self.as_bool(st, self.sp(x, st, env, ctx)) for x in n.values]
-            return mk_bool(z3.And(*vs) if isinstance(n.op, ast.And) else z3.Or(*vs))
+            # static short-circuit: clauses about statically known shapes may
+            # guard sub-expressions that only make sense under the guard
+            vs = []
+            is_and = isinstance(n.op, ast.And)
+            for x in n.values:
+                b = z3.simplify(self.as_bool(st, self.sp(x, st, env, ctx)))
+                if is_and and z3.is_false(b):
+                    return mk_bool(False)
+                if (not is_and) and z3.is_true(b):
+                    return mk_bool(True)
+                vs.append(b)
+            return mk_bool(z3.And(*vs) if is_and else z3.Or(*vs))
         if t is ast.BinOp:
             a = self.sp(n.left, st, env, ctx)
             b = self.sp(n.right, st, env, ctx)
@@ -172,6 +221,10 @@ class SpecMixin:
         raise Unsupported("spec expression " + t.__name__)
 
     def sp_cmp(self, st, op, a, b):
+        if a.kind == "kset" and b.kind == "kset" and isinstance(op, (ast.Eq, ast.NotEq)):
+            k = fresh("k", KS)
+            e = z3.ForAll([k], z3.Select(a.z, k) == z3.Select(b.z, k))
+            return z3.Not(e) if isinstance(op, ast.NotEq) else e
         if isinstance(op, (ast.Is, ast.IsNot, ast.Eq, ast.NotEq)):
             e = self.same(st, a, b)
             if e is None:
@@ -224,10 +277,12 @@ class SpecMixin:
                 if k not in e or v.kind == "int" and k not in pre.env:
                     e[k] = v
             return self.sp(n.args[0], pre, e, ctx)
-        args = [self.sp(a, st, env, ctx) for a in n.args]
         if f == "implies":
-            return mk_bool(z3.Implies(self.as_bool(st, args[0]),
-                                      self.as_bool(st, args[1])))
+            a0 = z3.simplify(self.as_bool(st, self.sp(n.args[0], st, env, ctx)))
+            if z3.is_false(a0):
+                return mk_bool(True)
+            return mk_bool(z3.Implies(a0, self.as_bool(st, self.sp(n.args[1], st, env, ctx))))
+        args = [self.sp(a, st, env, ctx) for a in n.args]
         if f == "iff":
             return mk_bool(self.as_bool(st, args[0]) == self.as_bool(st, args[1]))
         if f == "len":
@@ -251,7 +306,7 @@ class SpecMixin:
         if f == "changed":
             return mk_bool(self.hget(st, "$changed", args[0].z))
         if f == "fresh":
-            return mk_bool(args[0].z >= ctx.pre.alloc)
+            return mk_bool(z3.And(args[0].z >= ctx.pre.alloc, args[0].z < st.alloc))
         if f == "allocated":
             return mk_bool(z3.And(args[0].z > 0, args[0].z < st.alloc))
         if f == "is_cls":
@@ -279,6 +334,80 @@ class SpecMixin:
             return mk_bool(z3.Select(st.ghost["RC"], args[0].z))
         if f == "rc_unchanged":
             return mk_bool(st.ghost["RC"] == ctx.pre.ghost["RC"])
+        # ---- finite sets of keys (ghost): Array K -> Bool
+        if f == "elems":       # ghost key set of a K-list (exact when grown by append)
+            return SV("kset", self.hget(st, "$elems", args[0].z))
+        if f == "prefix_elems":  # keys of l[0:n]
+            l, nn = args
+            return SV("kset", PE(self.lcontent(st, l.z, "K"), nn.z))
+        if f == "keyseq":      # the ascending key sequence an operand iterates as (ghost list)
+            return SV("list", KSEQ(args[0].z), "K")
+        if f == "valseq":
+            return SV("list", VSEQ(args[0].z), "V")
+        if f == "is_btrees":   # operand is a BTrees container (iterates strictly ascending)
+            return mk_bool(ISBT(args[0].z))
+        if f == "has_values":
+            return mk_bool(HASV(args[0].z))
+        if f == "sunion":
+            a, b = args
+            k = fresh("k", KS)
+            return SV("kset", z3.Lambda([k], z3.Or(z3.Select(a.z, k), z3.Select(b.z, k))))
+        if f == "sinter":
+            a, b = args
+            k = fresh("k", KS)
+            return SV("kset", z3.Lambda([k], z3.And(z3.Select(a.z, k), z3.Select(b.z, k))))
+        if f == "sdiff":
+            a, b = args
+            k = fresh("k", KS)
+            return SV("kset", z3.Lambda([k], z3.And(z3.Select(a.z, k), z3.Not(z3.Select(b.z, k)))))
+        if f == "pe_remaining":
+            # instance of lemma L2 (proved by induction, lemma:pe_remaining) for one sequence
+            l = args[0]
+            c = self.lcontent(st, l.z, "K")
+            nn = self.llen(st, l.z)
+            pp, kk = fresh("p", INT), fresh("k", KS)
+            i, j = fresh("i", INT), fresh("j", INT)
+            srt = z3.ForAll([i, j], z3.Implies(z3.And(0 <= i, i < j, j < nn), z3.Select(c, i) < z3.Select(c, j)))
+            body = z3.ForAll([pp, kk], z3.Implies(
+                z3.And(0 <= pp, pp < nn, z3.Select(PE(c, nn), kk), z3.Not(z3.Select(PE(c, pp), kk))),
+                z3.Select(c, pp) <= kk),
+                patterns=[z3.MultiPattern(z3.Select(PE(c, nn), kk), z3.Select(c, pp))])
+            return mk_bool(z3.Implies(srt, body))
+        if f == "pe_member":
+            # instance of lemma L3 (lemma:pe_member): every key of c[0:n] is in prefix_elems(c, n)
+            l = args[0]
+            c = self.lcontent(st, l.z, "K")
+            nn = self.llen(st, l.z)
+            j = fresh("j", INT)
+            return mk_bool(z3.ForAll([j], z3.Implies(z3.And(0 <= j, j < nn), z3.Select(PE(c, nn), z3.Select(c, j))),
+                                     patterns=[z3.Select(c, j)]))
+        if f == "all_below":   # every key of the set is < x
+            k = fresh("k", KS)
+            return mk_bool(z3.ForAll([k], z3.Implies(z3.Select(args[0].z, k), k < args[1].z)))
+        if f == "subset":
+            k = fresh("k", KS)
+            return mk_bool(z3.ForAll([k], z3.Implies(z3.Select(args[0].z, k), z3.Select(args[1].z, k))))
+        if f == "sempty":
+            return SV("kset", z3.K(KS, z3.BoolVal(False)))
+        if f == "sadd":
+            return SV("kset", z3.Store(args[0].z, args[1].z, True))
+        if f == "set_eq":
+            a, b = args
+            k = fresh("k", KS)
+            return mk_bool(z3.ForAll([k], z3.Select(a.z, k) == z3.Select(b.z, k)))
+        if f == "it_seq":
+            return SV("list", self.hget(st, "$it_seq", args[0].z), "K")
+        if f == "it_vals":
+            return SV("list", self.hget(st, "$it_vals", args[0].z), "V")
+        if f == "it_pos":
+            return mk_int(self.hget(st, "$it_pos", args[0].z))
+        if f == "it_pairs":
+            return mk_bool(self.hget(st, "$it_pairs", args[0].z))
+        if f == "kind_of":     # static shape of a value: 'none', 'int', 'tuple2', ...
+            a = args[0]
+            return SV("str", None, a.kind + (str(len(a.x)) if a.kind == "tuple" else ""))
+        if f == "istuple":
+            return mk_bool(args[0].kind == "tuple")
         if f == "is_none":
             return mk_bool(self.same(st, args[0], NONE))
         if f == "list_eq":
